@@ -214,8 +214,8 @@ var frags = []*Frag{
 	{Name: "local-action-ok", Assets: []string{"act-ok", "act-comp", "act-docker"}, Clean: true, Jobs: []FragJob{{ID: "{P}la", Body: "    runs-on: ubuntu-latest\n    steps:\n      - id: a\n        uses: ./act-ok\n        with:\n          token: t\n      - uses: ./act-comp\n        id: c\n      - uses: ./act-docker\n        with:\n          arg: ${{ steps.a.outputs.result }} ${{ steps.c.outputs.greeting }}\n"}}},
 	// owner/repository of a well-known action in another letter case (GitHub resolves it; the built-in table does not list it)
 	{Name: "popular-action-other-case", Jobs: []FragJob{{ID: "{P}pc", Body: "    runs-on: ubuntu-latest\n    steps:\n      - uses: Actions/Checkout@v4\n        with:\n          fetch-depth: 0\n      - uses: actions/Setup-Node@v4\n      - uses: jamesives/github-pages-deploy-action@v4\n      - uses: actions/checkout@v4\n        with:\n          nope: 1\n"}}},
-	{Name: "local-actions-differing-in-case-1", Assets: []string{"act-case"}, Jobs: []FragJob{{ID: "{P}cs1", Body: "    runs-on: ubuntu-latest\n    steps:\n      - uses: ./acts/Deploy\n"}}},
-	{Name: "local-actions-differing-in-case-2", Assets: []string{"act-case"}, Jobs: []FragJob{{ID: "{P}cs2", Body: "    runs-on: ubuntu-latest\n    steps:\n      - uses: ./acts/deploy\n        with:\n          token: t\n"}}},
+	{Name: "local-actions-differing-in-case-1", Tie: true, Assets: []string{"act-case"}, Jobs: []FragJob{{ID: "{P}cs1", Body: "    runs-on: ubuntu-latest\n    steps:\n      - uses: ./acts/Deploy\n"}}},
+	{Name: "local-actions-differing-in-case-2", Tie: true, Assets: []string{"act-case"}, Jobs: []FragJob{{ID: "{P}cs2", Body: "    runs-on: ubuntu-latest\n    steps:\n      - uses: ./acts/deploy\n        with:\n          token: t\n"}}},
 	{Name: "local-action-errors", Assets: []string{"act-ok", "act-comp"}, Jobs: []FragJob{{ID: "{P}le", Body: "    runs-on: ubuntu-latest\n    steps:\n      - id: a\n        uses: ./act-ok\n        with:\n          mode: slow\n          bogus: 1\n      - run: echo ${{ steps.a.outputs.nope }}\n      - uses: ./act-comp\n        with:\n          WHO: me\n"}}},
 	{Name: "local-missing-three", Assets: []string{"act-req3"}, Tie: true, Jobs: []FragJob{{ID: "{P}lm", Body: "    runs-on: ubuntu-latest\n    steps:\n      - uses: ./act-req3\n      - uses: ./act-req3\n        with:\n          beta: b\n          zeta: z\n          eta: e\n"}}},
 	{Name: "reuse-typed-ok", Assets: []string{"wf-typed"}, Clean: true, Jobs: []FragJob{
